@@ -512,6 +512,87 @@ def lifespan_cases(rec):
                              'expected %r' % (calls, wc), case)
 
 
+def lifespan_delegation_cases(rec):
+    """No callbacks and a wrapped application that misbehaves on the lifespan
+    scope (raises at once - what applications without lifespan support do -,
+    reports a failed startup and raises, raises after the shutdown event):
+    delegation means the wrapped application alone talks to the server - the
+    gateway adds no event of its own and does not hide the exception."""
+    import engineio
+    for how in ('raises-at-once', 'startup-failed-then-raises',
+                'raises-on-shutdown', 'well-behaved'):
+        rec.evaluations += 1
+        rec.count('lifespan')
+        rec.key('lifespan-delegation/' + how)
+        own = []
+
+        async def otherapp(scope, receive, send):
+            if how == 'raises-at-once':
+                raise RuntimeError('lifespan not supported')
+            ev = await receive()
+            if how == 'startup-failed-then-raises':
+                await send({'type': 'lifespan.startup.failed'})
+                own.append('lifespan.startup.failed')
+                raise RuntimeError('startup failed')
+            await send({'type': 'lifespan.startup.complete'})
+            own.append('lifespan.startup.complete')
+            ev = await receive()
+            if how == 'raises-on-shutdown':
+                raise RuntimeError('shutdown crashed')
+            await send({'type': 'lifespan.shutdown.complete'})
+            own.append('lifespan.shutdown.complete')
+
+        class Eng:
+            async def handle_request(self, *a):
+                pass
+        app = engineio.ASGIApp(Eng(), otherapp)
+        inbox = [{'type': 'lifespan.startup'}, {'type': 'lifespan.shutdown'}]
+        sent = []
+
+        async def receive():
+            if inbox:
+                return inbox.pop(0)
+            await asyncio.sleep(3600)
+
+        async def send(ev):
+            sent.append(ev['type'])
+        res = {}
+
+        async def drive():
+            t = asyncio.ensure_future(app({'type': 'lifespan'}, receive,
+                                          send))
+            for _ in range(50):
+                await asyncio.sleep(0)
+                if t.done():
+                    break
+            res['done'] = t.done()
+            if not t.done():
+                t.cancel()
+                try:
+                    await t
+                except BaseException:
+                    pass
+            else:
+                res['exc'] = t.exception()
+        case = {'lifespan_delegation': how}
+        loop = asyncio.new_event_loop()
+        try:
+            loop.run_until_complete(drive())
+        finally:
+            loop.close()
+        if sent != own:
+            rec.viol('lifespan-not-delegated', 'wrapped application (%s) sent '
+                     '%r; the server was sent %r' % (how, own, sent), case)
+        if not res.get('done'):
+            rec.viol('lifespan-not-delegated', 'wrapped application (%s) '
+                     'returned / raised, but the gateway is still waiting '
+                     'for lifespan events' % how, case)
+        elif how != 'well-behaved' and res.get('exc') is None:
+            rec.viol('lifespan-not-delegated', 'the exception of the wrapped '
+                     'application (%s) was hidden from the server' % how,
+                     case)
+
+
 def run_shard(spec):
     rec = Rec()
     if not _hook_installed[0]:
@@ -519,6 +600,7 @@ def run_shard(spec):
         _hook_installed[0] = True
     if spec.get('lifespan'):
         lifespan_cases(rec)
+        lifespan_delegation_cases(rec)
         return rec.result()
     root = make_tree()
     try:
@@ -614,8 +696,9 @@ def plan(tier, seed):
 
 def replay(case):
     rec = Rec()
-    if 'lifespan' in case:
+    if 'lifespan' in case or 'lifespan_delegation' in case:
         lifespan_cases(rec)
+        lifespan_delegation_cases(rec)
         return rec.violations
     if not _hook_installed[0]:
         sys.addaudithook(_audit)
